@@ -22,6 +22,7 @@ pub mod c18;
 pub mod c19;
 pub mod serialchk;
 pub mod stale;
+pub mod convoy;
 
 #[derive(Clone, Debug)]
 pub struct Ctx {
@@ -66,6 +67,7 @@ pub fn dispatch(name: &str, ctx: &Ctx) -> Option<Outcome> {
         "c01" => match ctx.args.str("part", "freerun").as_str() {
             "serial" => serialchk::run(ctx, "c01"),
             "stale" => stale::run(ctx),
+            "convoy" => convoy::run(ctx),
             _ => c01::run(ctx),
         },
         "c11" => if ctx.args.str("part", "serial") == "hammer" { c11::run(ctx) } else { serialchk::run(ctx, "c11") },
